@@ -44,6 +44,7 @@ func cmdRun(args []string) {
 	debug := fs.Bool("debug", false, "propagate engine panics")
 	paramStr := fs.String("param", "", "k=v,k=v vParam values")
 	nomerge := fs.Bool("nomerge", false, "disable if-conversion")
+	knownStr := fs.String("known", "", "comma separated known-finding ids treated as active")
 	fs.Parse(args)
 	t0 := time.Now()
 	ld, err := drive.Load([]string{*pkg}, *arch)
@@ -72,7 +73,14 @@ func cmdRun(args []string) {
 			Workers: *workers, Solver: *solver, TimeoutMs: *timeout, WordBits: ld.WordBits,
 			InitPkg: sp, PathCap: *pathCap, Debug: *debug,
 			Progress: true,
-			Setup: func(it *interp.Interp) { it.InitAllow = drive.DefaultInitAllow; it.Params = params; it.NoMerge = *nomerge },
+			Setup: func(it *interp.Interp) { it.InitAllow = drive.DefaultInitAllow; it.Params = params; it.NoMerge = *nomerge
+				it.Known = map[string]bool{}
+				for _, k := range strings.Split(*knownStr, ",") {
+					if k != "" {
+						it.Known[k] = true
+					}
+				}
+			},
 		})
 		if err != nil {
 			fmt.Fprintln(os.Stderr, "explore:", err)
